@@ -4,7 +4,7 @@ Model of huginn-net-http/src/http_process.rs (C09): `TcpFlow` (init on SYN, per-
 lists and initial sequence numbers, `get_full_data` = stable sort by the offset from ISN+1 modulo 2^32 and the
 gap-free, duplicate-free run from the first byte),
 `has_complete_http_data`, `process_tcp_packet` (flow lookup by key / reversed key, when parsing is
-attempted, at-most-once flags, the 64 KiB buffer cap, flow removal under the stored key on
+attempted, at-most-once flags, the 64 KiB cap on the bytes *stored* per direction (`buffered_len`), flow removal under the stored key on
 "both parsed" and on FIN/RST).
 
 Parameters (not modelled here):
@@ -143,6 +143,11 @@ def hasCompleteHttpData {ρ σ} (P : Parsers ρ σ) (d : Bytes) : Bool :=
 
 def maxBufferedHeadBytes : Nat := HttpLists.flowMaxBuffered
 
+/-- `buffered_len`: bytes stored for one direction (every segment kept, in or out of order) -/
+def bufferedLen : List Seg → Nat
+  | [] => 0
+  | s :: r => s.data.length + bufferedLen r
+
 /-! ### process_tcp_packet -/
 
 inductive Event (ρ σ : Type)
@@ -164,10 +169,11 @@ structure StepOut (ρ σ : Type) where
 def clientBranch {ρ σ} (P : Parsers ρ σ) (flow : TcpFlow) (seg : Seg) : TcpFlow × Option ρ :=
   if flow.clientParsed then (flow, none) else
   let data := flow.clientData ++ [seg]
-  let full := fullData (some flow.clientIsn) data
-  if full.length > maxBufferedHeadBytes then
+  if bufferedLen data > maxBufferedHeadBytes then
     ({ flow with clientData := [], clientParsed := true }, none)
-  else if hasCompleteHttpData P full then
+  else
+  let full := fullData (some flow.clientIsn) data
+  if hasCompleteHttpData P full then
     match P.request full with
     | some r => ({ flow with clientData := data, clientParsed := true }, some r)
     | none => ({ flow with clientData := data }, none)
@@ -176,10 +182,11 @@ def clientBranch {ρ σ} (P : Parsers ρ σ) (flow : TcpFlow) (seg : Seg) : TcpF
 def serverBranch {ρ σ} (P : Parsers ρ σ) (flow : TcpFlow) (seg : Seg) : TcpFlow × Option σ :=
   if flow.serverParsed then (flow, none) else
   let data := flow.serverData ++ [seg]
-  let full := fullData flow.serverIsn data
-  if full.length > maxBufferedHeadBytes then
+  if bufferedLen data > maxBufferedHeadBytes then
     ({ flow with serverData := [], serverParsed := true }, none)
-  else if hasCompleteHttpData P full then
+  else
+  let full := fullData flow.serverIsn data
+  if hasCompleteHttpData P full then
     match P.response full with
     | some r => ({ flow with serverData := data, serverParsed := true }, some r)
     | none => ({ flow with serverData := data }, none)
